@@ -57,6 +57,20 @@ def check(ck):
     r10_12(ck)
     r10_13(ck)
     r10_14(ck)
+    from . import c05
+    ck.shared('R10.15', 'the step registry of the engine follows the '
+              'hierarchy: a step that left is removed from the collection '
+              'it is kept in (sequential list or graph), and the layers of '
+              'a phase are a list fixed when the phase begins, not a live '
+              'view of collections that structural updates change',
+              c05.r05_4, c05.r05_7)
+    from . import c11
+    ck.shared('R10.16', 'what the engine publishes for one daughter is not '
+              'shared with the other: each inheriting daughter gets its own '
+              'deep copy of the processes, topology and flow of the mother '
+              '(the published dictionaries are edited in place when a part '
+              'of one daughter is deleted later)',
+              c11.r11_3)
 
 
 def _ret_tuples(fi):
